@@ -700,3 +700,65 @@ pub fn client_subscription_array_equals_single() -> Value {
 		json!({"probe":"client_subscription_array_equals_single","disagrees":false,"histories_tried":2})
 	})
 }
+
+// ------------------------------------------------------------------------------------------
+use jsonrpsee_core::server::RpcModule;
+
+fn names(m: &RpcModule<()>) -> Vec<&'static str> {
+	let mut v: Vec<&'static str> = m.method_names().collect();
+	v.sort();
+	v
+}
+
+/// C13: failed registrations change nothing; success adds exactly the named entries; clones are unaffected.
+pub fn registry_atomicity() -> Value {
+	let fail = |what: &str, obs: String, exp: String| json!({"probe":"registry_atomicity","disagrees":true,"input":what,"observed":obs,"expected":exp});
+	let mut m = RpcModule::new(());
+	m.register_method("a", |_, _, _| 1u64).unwrap();
+	m.register_method("b", |_, _, _| 2u64).unwrap();
+	let before = names(&m);
+	let snapshot = m.clone();
+	// taken name
+	if m.register_method("a", |_, _, _| 3u64).is_ok() || names(&m) != before {
+		return fail("register_method(\"a\") on a module that has \"a\"", format!("{:?}", names(&m)), format!("Err, names {:?}", before));
+	}
+	// alias: taken alias / unknown target
+	if m.register_alias("b", "a").is_ok() || m.register_alias("z", "nope").is_ok() || names(&m) != before {
+		return fail("register_alias with taken alias / unknown target", format!("{:?}", names(&m)), format!("Err, names {:?}", before));
+	}
+	// subscription whose names coincide, or whose unsubscribe / subscribe name is taken: nothing is added
+	for (s, u) in [("s", "s"), ("s", "a"), ("a", "u"), ("b", "a")] {
+		let ok = m.register_subscription(s, "n", u, |_, _, _, _| async { }).is_ok();
+		if ok || names(&m) != before {
+			return fail(&format!("register_subscription(subscribe={s:?}, unsubscribe={u:?}) on names {before:?}"), format!("ok={} names={:?}", ok, names(&m)), format!("Err, names {:?}", before));
+		}
+	}
+	// merge with a module that shares one of several names: nothing is added (whatever the iteration order)
+	for shared in ["a", "b"] {
+		let mut other = RpcModule::new(());
+		for n in ["x1", "x2", "x3", "x4", "x5", "x6", "x7", "x8"] {
+			other.register_method(n, |_, _, _| 0u64).unwrap();
+		}
+		other.register_method(shared, |_, _, _| 9u64).unwrap();
+		if m.merge(other).is_ok() || names(&m) != before {
+			return fail(&format!("merge of a module with 8 fresh names and the shared name {shared:?}"), format!("{:?}", names(&m)), format!("Err, names {:?}", before));
+		}
+	}
+	// successes add exactly the named entries
+	m.register_alias("c", "a").unwrap();
+	m.register_subscription("s", "n", "u", |_, _, _, _| async { }).unwrap();
+	let mut want = before.clone();
+	want.extend(["c", "s", "u"]);
+	want.sort();
+	if names(&m) != want {
+		return fail("alias c->a, subscription (s, u)", format!("{:?}", names(&m)), format!("{:?}", want));
+	}
+	if m.remove_method("c").is_none() || m.remove_method("c").is_some() {
+		return fail("remove_method(\"c\") twice", "first None or second Some".into(), "Some then None".into());
+	}
+	// the clone taken earlier is unaffected
+	if names(&snapshot) != before {
+		return fail("clone taken before the changes", format!("{:?}", names(&snapshot)), format!("{:?}", before));
+	}
+	json!({"probe":"registry_atomicity","disagrees":false,"inputs_tried":14})
+}
